@@ -14,7 +14,7 @@ impl Prop for C17 {
         "C17"
     }
     fn rule(&self) -> String {
-        "cases = 1-3 prepared statements with 1-6 parameters and a history of 1-12 rounds; a round sends 0-5 COM_STMT_SEND_LONG_DATA chunks (sizes 0, 1, 300, 70000, random; one >= 2^24-byte chunk in the enumerated cases) addressed to generated (statement, parameter) targets, possibly for several statements at once, (occasionally followed by a re-prepare that hands out the same id and parameter count again, which must discard what is pending), then executes one statement whose long-data parameters are omitted inline (as clients do) while the others are sent inline incl. NULLs. Oracle: reference model pending[stmt][param]; at an execution the addressed parameters arrive as bytes equal to the in-order concatenation, the others exactly as encoded; afterwards the statement's pending data is empty (the next execution sees its inline value); other statements' pending data is untouched. Non-trivial = >= 2 chunks for one target, or long data pending for another statement across an execution, or an execution without long data after one with.".into()
+        "cases = 1-3 prepared statements with 1-6 parameters and a history of 1-12 rounds; a round sends 0-5 COM_STMT_SEND_LONG_DATA chunks (sizes 0, 1, 300, 70000, random; one >= 2^24-byte chunk in the enumerated cases) addressed to generated (statement, parameter) targets, possibly for several statements at once, (occasionally followed by a re-prepare that hands out the same id and parameter count again, which must discard what is pending), then executes one statement whose long-data parameters are omitted inline (as clients do) while the others are sent inline incl. NULLs. One enumerated history executes a single statement more than 65536 (thorough: 131072) times - a streamed value first, inline values afterwards - so that 'delivered to exactly one execution' is also checked at distances where narrow counters wrap. Oracle: reference model pending[stmt][param]; at an execution the addressed parameters arrive as bytes equal to the in-order concatenation, the others exactly as encoded; afterwards the statement's pending data is empty (the next execution sees its inline value); other statements' pending data is untouched. Non-trivial = >= 2 chunks for one target, or long data pending for another statement across an execution, or an execution without long data after one with.".into()
     }
     fn assumptions(&self) -> Vec<String> {
         vec!["long data is only addressed to non-NULL parameters of string type, as client libraries do".into()]
@@ -86,7 +86,7 @@ impl Prop for C17 {
             }
             ops.push(Op::Exec { stmt: s, params, rebind: true, take: None });
         }
-        Case { stmts, ops }
+        Case { stmts, ops, tail_unbound: None }
     }
     fn fixed(&self, tier: Tier) -> Vec<Case> {
         // multi-packet chunk(s)
@@ -117,8 +117,29 @@ impl Prop for C17 {
                         take: None,
                     },
                 ],
+                tail_unbound: None,
             });
         }
+        // "delivered to exactly one execution", for every later execution: one statement executed
+        // more often than 8-, 16-bit counters can tell apart (a streamed value once, then inline values)
+        let many = match tier {
+            Tier::Quick => 65_536 + 300,
+            Tier::Thorough => 2 * 65_536 + 300,
+        };
+        let mut ops = vec![
+            Op::Long { stmt: 0, param: 0, data: b"streamed-".to_vec() },
+            Op::Long { stmt: 0, param: 0, data: b"blob".to_vec() },
+            Op::Exec { stmt: 0, params: vec![Param { coltype: T_BLOB, unsigned: false, value: PVal::LongData }, Param { coltype: T_LONG, unsigned: false, value: PVal::Int(1) }], rebind: true, take: None },
+        ];
+        for k in 0..many {
+            ops.push(Op::Exec {
+                stmt: 0,
+                params: vec![Param { coltype: T_BLOB, unsigned: false, value: PVal::Bytes(format!("inline-{}", k).into_bytes()) }, Param { coltype: T_LONG, unsigned: false, value: PVal::Int(k as u64 & 0xffff_ffff) }],
+                rebind: k % 251 == 0,
+                take: None,
+            });
+        }
+        v.push(Case { stmts: vec![(3, 2)], ops, tail_unbound: None });
         v
     }
     fn exec(&self, case: &Case) -> Exec {
@@ -164,6 +185,9 @@ impl Prop for C17 {
         let (conv, _) = build_history(case);
         if conv.cmds.iter().any(|sc| sc.cmd.payload_len_hint() >= MAX_PAYLOAD) {
             ex.class("multi-packet-chunk");
+        }
+        if case.ops.len() > 60_000 {
+            ex.class("one-statement-executed->65536-times");
         }
         judge_history("c17", case, &mut ex, true);
         ex
